@@ -171,6 +171,7 @@ fn account(st: &mut Stats, w: &World, stratum: Stratum, v: &Verdict, info: &RunI
     for k in &info.sem_diag_kinds {
         st.str_insert("semantic_diagnostic_kinds", k);
     }
+    st.add("sanity/pristine_files_with_lexical_errors", info.pristine_with_lexical_errors as u64);
     for sig in &info.other_failures {
         st.inc(&format!("other_property_oracle_failed/{}", sig));
     }
@@ -358,6 +359,7 @@ fn evidence(
             "violations_by_signature": st.group("violation/"),
             "oracles_of_other_properties_that_failed": st.group("other_property_oracle_failed/"),
             "skipped_panic_classes": st.group("skipped_panic_class/"),
+            "generator_sanity": st.group("sanity/"),
             "components": {
                 "real_code": ["oq3_lexer", "oq3_parser", "oq3_syntax", "oq3_source_file (all but 4 std calls)", "oq3_semantics", "std::path", "std::env::split_paths"],
                 "stubbed": ["file system (Path::is_file, fs::read_to_string, fs::canonicalize)", "environment variable QASM3_PATH", "working directory"],
